@@ -57,17 +57,15 @@ theorem embed_inv {w : World} {sub : Grid} {c : Nat}
     (nR : ∀ x ∈ w.rocktypelist, ∀ y ∈ sub.rocktypelist, w.rname x = w.rname y → ∀ b ∈ w.blocklist, (w.bk b).rock ≠ x)
     (hc : c < w.cons.length) (hc1 : c ∉ w.connectionlist) (hc2 : c ∉ sub.connectionlist)
     (hhost : (w.cn c).b0 ∈ w.blocklist) (hsb : (w.cn c).b1 ∈ sub.blocklist) :
-    match embed w sub c with
-    | .ok (w', true) => Grid.Inv w' ∧ totalVolume w' = totalVolume w
-    | .ok (w', false) => w' = w
-    | .error (_, w') => Grid.Inv w' := by
+    ∃ w' fl, embed w sub c = .ok (w', fl) ∧ Grid.Inv w' ∧
+      (fl = true → totalVolume w' = totalVolume w) ∧ (fl = false → w' = w) := by
   unfold embed
   simp only []
   by_cases hvol : sumRat (sub.blocklist.map fun b => (w.bk b).volume) < (w.bk (w.cn c).b0).volume
-  case neg => rw [if_neg hvol]
+  case neg => rw [if_neg hvol]; exact ⟨w, false, rfl, h1, (fun h => by cases h), fun _ => rfl⟩
   rw [if_pos hvol]
   by_cases hdup : ((w.blocklist.map w.bname).filter fun n => decide (n ∈ sub.blocklist.map w.bname)).isEmpty = true
-  case neg => rw [if_neg hdup]
+  case neg => rw [if_neg hdup]; exact ⟨w, false, rfl, h1, (fun h => by cases h), fun _ => rfl⟩
   rw [if_pos hdup]
   have nB : ∀ x ∈ w.blocklist, ∀ y ∈ sub.blocklist, w.bname x ≠ w.bname y := by
     intro x hx y hy e
@@ -106,62 +104,58 @@ theorem embed_inv {w : World} {sub : Grid} {c : Nat}
     · exact hc2 h
   have hI3 := addConnection_inv hI1 (c := c) (by rw [fc]; exact hc) hc1'
     (by rw [f_cn, hb0]; exact hhost1) (by rw [f_cn, hb1]; exact hsb1) (by rw [f_cn, hb0, hb1]; exact hne)
-  cases e3 : addConnection w1 c with
-  | error p => obtain ⟨e, w3⟩ := p; rw [e3] at hI3; exact hI3
-  | ok w3 =>
-    rw [e3] at hI3
-    simp only [worldOf_ok] at hI3 ⊢
-    -- what add_connection left alone
-    have hne' : (w1.cn c).b0 ≠ (w1.cn c).b1 := by rw [f_cn, hb0, hb1]; exact hne
-    obtain ⟨l, hl⟩ : ∃ l, (match dget w1.connection (w1.ckey c) with
-           | some old => replaceFirst w1.connectionlist old c
-           | none => some (w1.connectionlist ++ [c])) = some l := by
-      cases hd : dget w1.connection (w1.ckey c) with
-      | none => exact ⟨_, rfl⟩
-      | some old =>
-        have hold := hI1.cd_sound _ _ hd
-        cases hr : replaceFirst w1.connectionlist old c with
-        | none => exact absurd hold.1 (replaceFirst_none.mp hr)
-        | some l => exact ⟨l, by simp only [hr]⟩
-    rw [addConnection_ok hne' hl, Except.ok.injEq] at e3
-    have g_bl : w3.blocklist = w1.blocklist := by subst e3; rfl
-    have g_bd : w3.block = w1.block := by subst e3; rfl
-    have g_vol : ∀ x, (w3.bk x).volume = (w.bk x).volume := by
-      intro x; subst e3
-      simp only [addConWorld, addConWorld', World.bk, getD_set, List.length_set]
-      split
+  have hne' : (w1.cn c).b0 ≠ (w1.cn c).b1 := by rw [f_cn, hb0, hb1]; exact hne
+  obtain ⟨l, hl⟩ : ∃ l, (match dget w1.connection (w1.ckey c) with
+         | some old => replaceFirst w1.connectionlist old c
+         | none => some (w1.connectionlist ++ [c])) = some l := by
+    cases hd : dget w1.connection (w1.ckey c) with
+    | none => exact ⟨_, rfl⟩
+    | some old =>
+      have hold := hI1.cd_sound _ _ hd
+      cases hr : replaceFirst w1.connectionlist old c with
+      | none => exact absurd hold.1 (replaceFirst_none.mp hr)
+      | some l => exact ⟨l, by simp only [hr]⟩
+  rw [addConnection_ok hne' hl] at hI3 ⊢
+  simp only [worldOf_ok] at hI3 ⊢
+  generalize e3 : addConWorld w1 c l = w3 at *
+  have g_bl : w3.blocklist = w1.blocklist := by subst e3; rfl
+  have g_bd : w3.block = w1.block := by subst e3; rfl
+  have g_vol : ∀ x, (w3.bk x).volume = (w.bk x).volume := by
+    intro x; subst e3
+    simp only [addConWorld, addConWorld', World.bk, getD_set, List.length_set]
+    split
+    · rename_i h; rw [← h.1]; simp only [← fb]
+    · split
       · rename_i h; rw [← h.1]; simp only [← fb]
-      · split
-        · rename_i h; rw [← h.1]; simp only [← fb]
-        · simp only [fb]
-    have g_bname : ∀ x, w3.bname x = w1.bname x := by
-      intro x; subst e3
-      simp only [World.bname, addConWorld, addConWorld', World.bk, getD_set, List.length_set]
-      split
+      · simp only [fb]
+  have g_bname : ∀ x, w3.bname x = w1.bname x := by
+    intro x; subst e3
+    simp only [World.bname, addConWorld, addConWorld', World.bk, getD_set, List.length_set]
+    split
+    · rename_i h; rw [← h.1]
+    · split
       · rename_i h; rw [← h.1]
-      · split
-        · rename_i h; rw [← h.1]
-        · rfl
-    have d3 : dget w3.block (w3.bname host) = some host := by
-      rw [g_bd, g_bname]; exact hI1.bd_complete host hhost1
-    rw [d3]
-    simp only []
-    refine ⟨setBlk_payload_inv hI3 host _ rfl rfl (fun h => hI3.b_rock host h), ?_⟩
-    -- total volume
-    have hlt : host < w3.blks.length := hI3.bl_lt host (g_bl ▸ hhost1)
-    generalize hsv : sumRat (sub.blocklist.map fun b => (w.bk b).volume) = subvol at *
-    have hperm : w1.blocklist.Perm (w.blocklist ++ sub.blocklist) := by
-      refine (List.perm_ext_iff_of_nodup ndB ?_).mpr ?_
-      · exact List.nodup_append.mpr ⟨h1.bl_nodup, h2.bl_nodup, fun a ha b hb e => oB a ha (e ▸ hb)⟩
-      · intro y; rw [memB, List.mem_append]; rfl
-    unfold totalVolume
-    show sumRat ((w3.blocklist).map fun b => ((w3.setBlk host { w3.bk host with volume := (w3.bk host).volume - subvol }).bk b).volume) = _
-    rw [g_bl]
-    rw [sumRat_map_update w1.blocklist ndB (fun b => (w.bk b).volume)
-          (fun b => ((w3.setBlk host { w3.bk host with volume := (w3.bk host).volume - subvol }).bk b).volume) host hhost1
-          (by intro x hx; simp only [bk_setBlk, Ne.symm hx, false_and, if_false]; exact g_vol x)]
-    simp only [bk_setBlk, hlt, and_self, if_true, g_vol]
-    rw [sumRat_perm ((hperm.map fun b => (w.bk b).volume)), List.map_append, sumRat_append, hsv]
-    grind
+      · rfl
+  have d3 : dget w3.block (w3.bname host) = some host := by
+    rw [g_bd, g_bname]; exact hI1.bd_complete host hhost1
+  rw [d3]
+  simp only []
+  refine ⟨_, true, rfl, setBlk_payload_inv hI3 host _ rfl rfl (fun h => hI3.b_rock host h), fun _ => ?_, (fun h => by cases h)⟩
+  -- total volume
+  have hlt : host < w3.blks.length := hI3.bl_lt host (g_bl ▸ hhost1)
+  generalize hsv : sumRat (sub.blocklist.map fun b => (w.bk b).volume) = subvol at *
+  have hperm : w1.blocklist.Perm (w.blocklist ++ sub.blocklist) := by
+    refine (List.perm_ext_iff_of_nodup ndB ?_).mpr ?_
+    · exact List.nodup_append.mpr ⟨h1.bl_nodup, h2.bl_nodup, fun a ha b hb e => oB a ha (e ▸ hb)⟩
+    · intro y; rw [memB, List.mem_append]; rfl
+  unfold totalVolume
+  show sumRat ((w3.blocklist).map fun b => ((w3.setBlk host { w3.bk host with volume := (w3.bk host).volume - subvol }).bk b).volume) = _
+  rw [g_bl]
+  rw [sumRat_map_update w1.blocklist ndB (fun b => (w.bk b).volume)
+        (fun b => ((w3.setBlk host { w3.bk host with volume := (w3.bk host).volume - subvol }).bk b).volume) host hhost1
+        (by intro x hx; simp only [bk_setBlk, Ne.symm hx, false_and, if_false]; exact g_vol x)]
+  simp only [bk_setBlk, hlt, and_self, if_true, g_vol]
+  rw [sumRat_perm ((hperm.map fun b => (w.bk b).volume)), List.map_append, sumRat_append, hsv]
+  grind
 
 end Proofs.Grid
